@@ -109,6 +109,10 @@ func (g G) drawPre(p *Plan, o *mixOpts) {
 				ps.ACS = ""
 			case 2:
 				ps.ACS = "https://sp.example/" + g.text(lab+".acsv", "acs"+sessionMarker(900+i), hard) + g.pick(lab+".acsq", "", "?a=1&b=2", "?x=<y>", `?q="v"`)
+				if ps.Binding == BindRedirect && g.chance(lab+".acsbad", 30) {
+					// a stored consumer URL that net/url refuses to parse (written by an integrator, or registered long ago)
+					ps.ACS = g.pick(lab+".acsbadv", " https://sp.example/acs"+sessionMarker(900+i), "https://sp.example/acs"+sessionMarker(900+i)+"%zz", "https://sp.example:port/acs"+sessionMarker(900+i), "https://sp.example/acs"+sessionMarker(900+i)+"\t", "http://[::1/acs"+sessionMarker(900+i))
+				}
 			}
 		}
 		p.World.Presessions = append(p.World.Presessions, ps)
